@@ -560,6 +560,9 @@ def gen_theta(rng, info):
 
 def gen_times(rng):
     n = rng.randint(1, 6)
+    if rng.random() < 0.15:
+        # whole numbers, handed over as integers (an integer array)
+        return sorted(set(rng.randint(0, 6) for _ in range(n)))
     ts = sorted(set(round(rng.uniform(0, 6), 2) for _ in range(n)))
     return ts
 
